@@ -159,9 +159,12 @@ def cases_for(cfg, lst, ops, rng, tier):
         lines += G.L
         tail += G.tail
         towers += gen_fpx.tower_lines(sel, [n for n in adm if n <= (6 if quick else 12)])
-    # stateless events: shuffle so that the expensive ones spread evenly over the TLC shards
+    # stateless events: shuffle so that the expensive ones spread evenly over the TLC shards, then order
+    # each block by selector (re-selecting a prime / curve costs the driver milliseconds per switch)
     lines = lines + towers
     rng.shuffle(lines)
+    blk = max(1, len(lines) // 48)
+    lines = [ln for i in range(0, len(lines), blk) for ln in sorted(lines[i:i + blk], key=lambda x: x.split(" ", 1)[0])]
     return lines + tail, admitted
 
 
